@@ -182,7 +182,11 @@ class Drive:
 
 
 class Library:
-    """Ground truth built from ``recipe = {"seed", "shape", "page_size", "strip_fraction"?, "empty_pages"?}``."""
+    """Ground truth built from ``recipe = {"seed", "shape", "page_size", "strip_fraction"?, "empty_pages"?, "prefix_siblings"?}``.
+
+    ``prefix_siblings``: next to some folders (any depth) there are sibling folders whose name extends the folder's name
+    ("Plan" / "Plan2024" / "Plan old") or is a proper prefix of it ("Pl"), each with files of its own and sometimes a
+    sub-folder — names that a string-prefix test on paths confuses with "the same folder or something below it"."""
 
     def __init__(self, recipe: dict):
         self.recipe = recipe
@@ -208,6 +212,8 @@ class Library:
             d = Drive(did, names[i], root)
             self._budget = self.shape["folders"] if i == 0 else max(1, self.shape["folders"] // 2)
             self._fill(root, 0, self.shape["spine"] if i == 0 else min(2, self.shape["spine"]))
+            if recipe.get("prefix_siblings"):
+                self._add_prefix_siblings(root)
             d.index()
             self.drives.append(d)
         self.default_drive = self.drives[0]
@@ -288,6 +294,49 @@ class Library:
         rng.shuffle(folder.children)
         for s in subs:
             self._fill(s, depth + 1, spine)
+
+    def _add_child(self, folder: Node, name: str, kind: str) -> Node:
+        rng = self._rng
+        c = Node(self._new_id(), name, kind, folder)
+        if kind == "file":
+            c.size = rng.choice([0, 17, 4096])
+        c.modified = self._stamp(None)
+        c.created = (c.modified[0] - rng.choice([0, 5, 86400]), rng.choice(_FRACS))
+        folder.children.insert(rng.randrange(len(folder.children) + 1), c)
+        return c
+
+    def _add_prefix_siblings(self, root: Node):
+        rng = self._rng
+        folders, stack = [], [root]
+        while stack:
+            f = stack.pop()
+            for c in f.children:
+                if c.kind == "folder":
+                    folders.append(c)
+                    stack.append(c)
+        if not folders:                                   # a drive without any folder gets one to start from
+            folders.append(self._add_child(root, self._name({c.name.lower() for c in root.children}, False), "folder"))
+            self._add_child(folders[0], self._name(set(), True), "file")
+        rng.shuffle(folders)
+        for f in folders[:3]:
+            par = f.parent
+            taken = {c.name.lower() for c in par.children}
+            names = [f.name + sfx for sfx in rng.sample(["2024", " old", "-v2", "s", "_", ".bak", " (2)", "0"], 2)]
+            if len(f.name) > 1 and rng.random() < 0.7:
+                names.append(f.name[: rng.randrange(1, len(f.name))].rstrip() or f.name[0])
+            for nm in names:
+                if nm.lower() in taken or nm != nm.strip() or nm.endswith("."):
+                    continue
+                taken.add(nm.lower())
+                sib = self._add_child(par, nm, "folder")
+                t2: set[str] = set()
+                for _ in range(rng.randint(1, 3)):
+                    self._add_child(sib, self._name(t2, True), "file")
+                if rng.random() < 0.5:
+                    sub = self._add_child(sib, rng.choice(["Drafts", "Q1", f.name]), "folder")
+                    self._add_child(sub, self._name(set(), True), "file")
+            if not any(c.kind == "file" for c in f.children):
+                self._add_child(f, self._name({c.name.lower() for c in f.children}, True), "file")
 
     # -------------------------------------------------------------------------------- reference access
     def drive(self, drive_id: str | None) -> Drive | None:
